@@ -14,10 +14,10 @@ import (
 	"sync"
 	"time"
 
+	"github.com/attestantio/go-block-relay/services/blockauctioneer"
 	"github.com/attestantio/go-eth2-client/spec/bellatrix"
 	"github.com/attestantio/go-eth2-client/spec/phase0"
 	"github.com/attestantio/vouch/services/beaconblockproposer"
-	"github.com/attestantio/go-block-relay/services/blockauctioneer"
 	"github.com/attestantio/vouch/services/blockrelay"
 	nullmetrics "github.com/attestantio/vouch/services/metrics/null"
 	bidbest "github.com/attestantio/vouch/strategies/builderbid/best"
@@ -36,11 +36,11 @@ const (
 )
 
 type relaySpec struct {
-	Lat       string             `json:"latency"` // fast | mid | late | silent | error
-	Bid       *harness.BidSpec   `json:"bid,omitempty"`
-	Second    *harness.BidSpec   `json:"second_bid,omitempty"` // deadline strategy: offered from 350 ms on
-	MinValue  uint64             `json:"min_value"`
-	KeyKnown  string             `json:"relay_key"` // config | provider | unknown
+	Lat      string           `json:"latency"` // fast | mid | late | silent | error
+	Bid      *harness.BidSpec `json:"bid,omitempty"`
+	Second   *harness.BidSpec `json:"second_bid,omitempty"` // deadline strategy: offered from 350 ms on
+	MinValue uint64           `json:"min_value"`
+	KeyKnown string           `json:"relay_key"` // config | provider | unknown
 }
 
 type builderCfg struct {
@@ -445,14 +445,14 @@ func run(c *harness.Ctx) {
 
 func main() {
 	harness.Main(&harness.Spec{
-		Property: "C09",
-		Level:    "exploration",
-		Rule:     "auctions over 1-6 scripted relays: bids with values 1000-12000, 4 builders with random {factor 0 (excluded) / factor / offset / both / none} configs, shared payload headers, relay minimum values, zero fee recipient, wrong timestamp, bad signature (relay key known from config, from the provider, or unknown), empty and nil bids, latencies fast / 600 ms / 1080 ms / silent / error against a 0.8 s deadline; deadline strategy polled every 100 ms with bids that change at 350 ms (improving or worsening); bids signed with real BLS keys. distinct = (strategy, multiset of relay (latency, eligibility, second bid) classes, configured builders); non-trivial = >=2 relays and >=1 eligible bid",
-		Batches:  func(string) int { return 2 },
-		Parallel: 2,
-		Run:      run,
-		MinDistinct: 100,
+		Property:     "C09",
+		Level:        "exploration",
+		Rule:         "auctions over 1-6 scripted relays: bids with values 1000-12000, 4 builders with random {factor 0 (excluded) / factor / offset / both / none} configs, shared payload headers, relay minimum values, zero fee recipient, wrong timestamp, bad signature (relay key known from config, from the provider, or unknown), empty and nil bids, latencies fast / 600 ms / 1080 ms / silent / error against a 0.8 s deadline; deadline strategy polled every 100 ms with bids that change at 350 ms (improving or worsening); bids signed with real BLS keys. distinct = (strategy, multiset of relay (latency, eligibility, second bid) classes, configured builders); non-trivial = >=2 relays and >=1 eligible bid",
+		Batches:      func(string) int { return 2 },
+		Parallel:     2,
+		Run:          run,
+		MinDistinct:  100,
 		ChildTimeout: func(string) time.Duration { return 40 * time.Minute },
-		Assumptions: []string{"scores are non-negative (offsets never exceed the value downwards)", "replies measured within +-130 ms of the deadline are ambiguous: either outcome accepted", "relays are injected through the builder-client cache hook (no HTTP)"},
+		Assumptions:  []string{"scores are non-negative (offsets never exceed the value downwards)", "replies measured within +-130 ms of the deadline are ambiguous: either outcome accepted", "relays are injected through the builder-client cache hook (no HTTP)"},
 	})
 }
